@@ -6,6 +6,7 @@ from .. import framework as F, ref_deflate, ref_ws, scen, world as W
 from ..ref_ws import TEXT, BINARY, CLOSE, PING, PONG
 
 EXT = scen.DEFLATE_HDR
+EXT_C9 = b'Sec-WebSocket-Extensions: permessage-deflate; client_max_window_bits=9\r\n'      # neg == 'c9': the client's LZ77 window is 512 bytes
 LENGTHS_Q = [0, 1, 2, 3, 4, 5, 6, 7, 8, 9, 123, 124, 125, 126, 127, 128, 129, 255, 256, 65534, 65535, 65536, 65537, 131072]
 LENGTHS_T = list(range(0, 1100)) + [4095, 4096, 16383, 16384, 32768] + list(range(65528, 65545)) + [131071, 131072, 200000, 1 << 20]
 KEYS = [b'\x00\x00\x00\x00', b'\xff\xff\xff\xff', b'\x01\x02\x03\x04', b'\x80\x7f\x00\xff']
@@ -21,6 +22,8 @@ def pattern(kind, n):
         return bytes(i & 0xFF for i in range(n))
     if kind == 'lanes':      # every lane (i % 4) sees every byte value
         return bytes((i // 4) & 0xFF for i in range(n))
+    if kind == 'far':        # incompressible block of 700 bytes, repeated: every match is 700 bytes back (beyond a 512-byte window)
+        return (pattern('rand', 700) * (n // 700 + 1))[:n]
     if kind == 'rand':       # fixed generator: incompressible
         import hashlib
         out = b''
@@ -176,6 +179,7 @@ class C03(F.Check):
                     jobs.append({'k': fam, 'key': key.hex(), 'neg': neg, 'debug': True})
                 jobs.append({'k': 'data', 'lengths': [0, 1, 5, 125, 126, 65536], 'patterns': ['count', 'rand'], 'texts': ['three'],
                              'key': key.hex(), 'neg': neg, 'debug': True})
+        jobs.append({'k': 'data', 'lengths': [0, 1400, 5000, 70000], 'patterns': ['far', 'count'], 'texts': ['three'], 'key': KEYS[2].hex(), 'neg': 'c9'})
         for base in range(0, 256, 16):
             jobs.append({'k': 'mask', 'keys': ['%02x%02x%02x%02x' % (k, (k + 1) & 255, (k + 2) & 255, (k + 3) & 255) for k in range(base, base + 16)]})
         jobs.append({'k': 'partial'})
@@ -236,12 +240,12 @@ class C03(F.Check):
                 now = [a if not isinstance(a, memoryview) else None for a in args], dict(kwargs)
                 intact = (list(snapshot[0]) == list(now[0]) and snapshot[1] == now[1])
                 records.append((label, api, exp, status, err, delta, intact))
-        run = scen.play([], 'one', ext=EXT if neg else b'', compress=neg, app=app, world_kwargs={'keys': keys})
+        run = scen.play([], 'one', ext=EXT_C9 if neg == 'c9' else EXT if neg else b'', compress=bool(neg), app=app, world_kwargs={'keys': keys})
         return run, records
 
     def judge_records(self, records, neg, key):
         """Yield (kind, message, label) problems; and per record an outcome tuple."""
-        peer = ref_deflate.Peer() if neg else None
+        peer = (ref_deflate.Peer(client_bits=9) if neg == 'c9' else ref_deflate.Peer()) if neg else None
         problems, outcomes = [], []
         for (label, api, exp, status, err, delta, intact) in records:
             frames, garbage = ref_ws.decode_client_stream(delta)
